@@ -113,9 +113,41 @@ func genHuge(r *Rand, n int, thorough bool, emit func(string)) {
 	}
 }
 
+// the inverse of one xorshift64 step (x ^= x<<13; x ^= x>>7; x ^= x<<17)
+func unxor64(x uint64) uint64 {
+	unl := func(x uint64, a uint) uint64 {
+		y := x
+		for s := a; s < 64; s += a {
+			y ^= x << s
+		}
+		return y
+	}
+	unr := func(x uint64, a uint) uint64 {
+		y := x
+		for s := a; s < 64; s += a {
+			y ^= x >> s
+		}
+		return y
+	}
+	return unl(unr(unl(x, 17), 7), 13)
+}
+
 func genHandles(r *Rand, n int, thorough bool, emit func(string)) {
+	// generator states from which a small or extreme state is reached within a few creations
+	for _, v := range []uint64{1, 2, 3, 4, 5, 7, 8, 255, 1 << 32, 1 << 63, 1<<63 + 1, 1<<64 - 1, 1<<64 - 2} {
+		st := v
+		for back := 0; back <= 5; back++ {
+			emit(fmt.Sprintf("hseed %s %d %d", []string{"f", "s"}[back%2], st, 8))
+			st = unxor64(st)
+		}
+	}
+	emit("hseed f 0 4")
 	for i := 0; i < n; i++ {
 		sel := r.Pick([]string{"f", "s"})
+		if r.Chance(1, 10) {
+			emit(fmt.Sprintf("hseed %s %d %d", sel, uint64(r.Range(1, 1<<30))*uint64(r.Range(1, 1<<30)), r.Range(1, 12)))
+			continue
+		}
 		if r.Chance(1, 12) {
 			emit(fmt.Sprintf("hstress %s %d %d %d %d", sel, r.Range(2, 8), r.Range(1, 8), r.Range(50, 3000), r.Range(1, 1<<30)))
 			continue
